@@ -75,6 +75,18 @@ def t_cv():
 
 
 # ---------------------------------------------------------------------------------- T-FUT / T-TIMER / T-SHIELD / T-GATHER / T-LOCK
+def t_token():
+    import contextvars
+    v = contextvars.ContextVar("conformance-token")
+    tok = v.set(1)
+    fact("T-CV:Token.old_value-is-Token.MISSING-when-the-variable-had-no-value", tok.old_value is contextvars.Token.MISSING)
+    tok2 = v.set(2)
+    fact("T-CV:Token.old_value-is-the-previous-value-otherwise", tok2.old_value == 1 and tok2.var is v)
+    v.reset(tok2)
+    v.reset(tok)
+    fact("T-CV:reset-with-the-first-token-leaves-the-variable-unset", v.get("unset") == "unset")
+
+
 def t_async():
     async def main():
         loop = asyncio.get_running_loop()
@@ -472,7 +484,7 @@ def t_copy():
 
 
 def main():
-    for f in (t_cv, t_async, t_coll, t_log, t_copy):
+    for f in (t_cv, t_token, t_async, t_coll, t_log, t_copy):
         try:
             f()
         except BaseException as e:  # noqa
